@@ -532,7 +532,9 @@ static void env_setup(void)
                                          "ubuf_mem_shared_alloc_inner", NULL };
     sim_alloc_set_allow_list(allow);
     umem = umem_sim_mgr_alloc(0);
-    udict_mgr = udict_inline_mgr_alloc(depth[pool], umem, -1, -1);
+    /* half of the runs: a dictionary storage that every attribute makes grow (growth can then fail) */
+    bool small_dicts = ((uint64_t)plan->cfg[CFG_POOL] % 10) >= 5;
+    udict_mgr = udict_inline_mgr_alloc(depth[pool], umem, small_dicts ? 1 : -1, small_dicts ? 1 : -1);
     uref_mgr = uref_std_mgr_alloc(depth[pool], udict_mgr, 0);
     ubuf_mgr = ubuf_block_mem_mgr_alloc(depth[pool], depth[pool], umem, 0, 0, 0, 0);
     memset(kind_mgr, 0, sizeof(kind_mgr));
@@ -998,7 +1000,7 @@ static void gen(const char *pr, struct sim_rng *r, struct sim_plan *p)
         static const int laned[] = { 0, 1, 2, 3, 4 };
         p->cfg[CFG_FAM] = laned[sim_rng_below(r, 5)];
     }
-    p->cfg[CFG_POOL] = sim_rng_below(r, 5);
+    p->cfg[CFG_POOL] = sim_rng_below(r, 10);
     p->cfg[CFG_FAULTS] = sim_rng_chance(r, 1, 3);
     p->cfg[CFG_SUPERDEF] = sim_rng_below(r, 256);
     p->cfg[CFG_END_ORDER] = sim_rng_below(r, 3);
